@@ -125,3 +125,47 @@ Theorem C01_eval_bindings_deletable_refuted :
              C01.Corr.pin_model 4 = C01.Corr.pin_spec 4 /\ C01.Corr.pin_model 5 = C01.Corr.pin_spec 5.
 Proof. exists 1%Z. repeat split; vm_compute; congruence. Qed.
 Print Assumptions C01_eval_bindings_deletable_refuted.
+
+(* otto's deviation on the arguments object of a function with a repeated parameter name (pinned probes 30-35 of the
+   correspondence run; 33 and 34 are controls that agree) *)
+Theorem C01_arguments_dup_param_refuted :
+  exists id, C01.Corr.pin_model id <> C01.Corr.pin_spec id /\
+             C01.Corr.pin_model 33 = C01.Corr.pin_spec 33 /\ C01.Corr.pin_model 34 = C01.Corr.pin_spec 34.
+Proof. exists 30%Z. repeat split; vm_compute; congruence. Qed.
+Print Assumptions C01_arguments_dup_param_refuted.
+
+(* the ES5 side of that table is what the reference semantics computes (10.6 step 11.c: a name is mapped once):
+   function pick(a, b, a) { log(arguments[0]); a = 9; log(arguments[0]); log(arguments[2]); } pick(1, 2, 3) *)
+Example C01_reference_arguments_dup_param :
+  Full.run_program 60 [Full.JFunDecl [112] [[97]; [98]; [97]]
+      [Full.JExpr (Full.XLog (Full.XIdx (Full.XVar Full.s_arguments) (Full.XLit (Full.WNum 0))));
+       Full.JExpr (Full.XAssign [97] (Full.XLit (Full.WNum 9)));
+       Full.JExpr (Full.XLog (Full.XIdx (Full.XVar Full.s_arguments) (Full.XLit (Full.WNum 0))));
+       Full.JExpr (Full.XLog (Full.XIdx (Full.XVar Full.s_arguments) (Full.XLit (Full.WNum 2))))];
+     Full.JExpr (Full.XCall (Full.XVar [112]) [Full.XLit (Full.WNum 1); Full.XLit (Full.WNum 2); Full.XLit (Full.WNum 3)])]
+  = ([Full.WNum 1; Full.WNum 1; Full.WNum 9], Full.FNormal).
+Proof. vm_compute. reflexivity. Qed.
+
+(* reference semantics, the clauses added for the round-6 families.
+   11.8.5 (LeftFirst): a > b converts a, then b:  ({valueOf(){log(1); return 1}}) > ({valueOf(){log(2); return 2}}) *)
+Example C01_reference_relational_left_first :
+  let ob t := Full.XObj [(Full.s_valueOf, Full.XFun [] [Full.JExpr (Full.XLog (Full.XLit (Full.WNum t))); Full.JReturn (Some (Full.XLit (Full.WNum t)))])] in
+  Full.run_program 60 [Full.JExpr (Full.XLog (Full.XBin Full.PGt (ob 1%Z) (ob 2%Z))); Full.JExpr (Full.XLog (Full.XBin Full.PLe (ob 1%Z) (ob 2%Z)))]
+  = ([Full.WNum 1; Full.WNum 2; Full.WBool false; Full.WNum 1; Full.WNum 2; Full.WBool true], Full.FNormal).
+Proof. vm_compute. reflexivity. Qed.
+
+(* 10.5 step 4.d: (function (a, b, a) { log(a); log(b) })(1, 2): the last a has no argument, a is undefined *)
+Example C01_reference_repeated_parameter :
+  Full.run_program 60 [Full.JExpr (Full.XCall (Full.XFun [[97]; [98]; [97]] [Full.JExpr (Full.XLog (Full.XVar [97])); Full.JExpr (Full.XLog (Full.XVar [98]))])
+                                              [Full.XLit (Full.WNum 1); Full.XLit (Full.WNum 2)])]
+  = ([Full.WUndef; Full.WNum 2], Full.FNormal).
+Proof. vm_compute. reflexivity. Qed.
+
+(* 15.1.2.1.1 / 10.4.2: indirect eval code is global code whatever this value the call supplied:
+   var top = this; log(ge.call({a: 5}, "log(this === top); this.a")) *)
+Example C01_reference_indirect_eval_this :
+  Full.run_program 60 [Full.JVar [116] (Some Full.XThis);
+     Full.JExpr (Full.XLog (Full.XEvalVia (Full.XObj [([97], Full.XLit (Full.WNum 5))])
+        [Full.JExpr (Full.XLog (Full.XBin Full.PSeq Full.XThis (Full.XVar [116]))); Full.JExpr (Full.XGet Full.XThis [97])]))]
+  = ([Full.WBool true; Full.WUndef], Full.FNormal).
+Proof. vm_compute. reflexivity. Qed.
